@@ -109,3 +109,40 @@ var polluterPT = func() (b [300]byte) {
 	}
 	return
 }()
+
+type refBlock struct{ c *sm4ref.Cipher }
+
+func (b refBlock) BlockSize() int { return 16 }
+func (b refBlock) Encrypt(dst, src []byte) {
+	o := b.c.Encrypt(src)
+	copy(dst, o[:])
+}
+func (b refBlock) Decrypt(dst, src []byte) {
+	o := b.c.Decrypt(src)
+	copy(dst, o[:])
+}
+
+func fastRef(key []byte, nonceSize, tag int) cipher.AEAD {
+	b := refBlock{sm4ref.New(key)}
+	var a cipher.AEAD
+	var err error
+	switch {
+	case tag == 16:
+		a, err = cipher.NewGCMWithNonceSize(b, nonceSize)
+	case nonceSize == 12:
+		a, err = cipher.NewGCMWithTagSize(b, tag)
+	default:
+		return nil
+	}
+	if err != nil {
+		return nil
+	}
+	return a
+}
+
+func gcmPart(base string) string {
+	if p := partName(); p != "seal" {
+		return p
+	}
+	return base
+}
